@@ -8,10 +8,17 @@ def jobs(tier):
     J = []
     for alg in ('greedy', 'roundrobin', 'kk', 'ckk', 'snp', 'rnp', 'cbldm'):
         J.append(job(W, alg, 3, size=2))
-        if alg != 'cbldm': J.append(job(W, alg, 3, size=3, other='ckk' if alg != 'ckk' else 'snp'))
+        if alg != 'cbldm': J.append(job(W, alg, 3, size=3, order='desc', other='ckk' if alg != 'ckk' else 'snp'))
+    for alg in ('greedy', 'roundrobin', 'kk', 'ckk', 'snp', 'rnp', 'cbldm'):
+        J.append(job(W, alg, 1, size=2)); J.append(job(W, alg, 2, size=2))
+    for alg in ('ff', 'ffd', 'bf', 'bfd', 'cdec', 'c23', 'c34'):
+        J.append(job(W, alg, 1)); J.append(job(W, alg, 2))
+    for B in (7, 10):
+        J.append(job(W, 'bc', 4, size=B, pres='list', order='desc')); J.append(job(W, 'bc', 5, size=B, pres='list', order='desc', lo=1))
+    J.append(job(W, 'bc', 1, size=10, pres='list')); J.append(job(W, 'bc', 6, size=10, pres='list', order='desc', lo=1))
     J.append(job(W, 'multifit', 3, size=2, iterations=2))
     for o in ('diff', 'min'):
-        J.append(job(W, 'dp', 3, size=2, obj=o)); J.append(job(W, 'cg', 3, size=2, obj=o, other='cg'))
+        J.append(job(W, 'dp', 3, size=2, obj=o, order='desc')); J.append(job(W, 'cg', 3, size=2, obj=o, other='cg', order='desc'))
     for alg in ('ff', 'ffd', 'bf', 'bfd', 'cdec', 'c23', 'c34'):
         J.append(job(W, alg, 3)); J.append(job(W, alg, 4, order='desc', other='snp'))
     J.append(job(W, 'bc', 3, size=10, pres='list'))
@@ -24,6 +31,6 @@ def jobs(tier):
 
 
 ASSUMPTIONS = ['S1 numpy shim', 'S2 exact arithmetic', 'S3 constant hash',
-               'histories: call, same call again, another algorithm on another input, two failing calls, same call again (on list, dict and array arguments)',
+               'histories: (a) the request and a related request to the SAME algorithm (other bin size / bin count, reversed items plus one more) in both orders, each answer compared with the same call after restoring every module-level container, class attribute and default argument of prtpy to its import-time value (= fresh interpreter state); (b) call, same call again, another algorithm on another input, two failing calls, same call again (on list, dict and array arguments)',
                'plus the engine itself: every path re-executes the function from the start and compares the branch atoms with the recorded ones; state carried from one execution to the next shows up as a replay mismatch (exit 2)']
 OUTSIDE = ['histories longer than the stated six calls', 'more than 4 items']
